@@ -192,6 +192,13 @@ func (g *Gateway) handleWebsocketProtocol(ctx context.Context, c *websocket.Conn
 // and RDG_OUT_DATA for server -> client data. The handshakeRequest procedure is a bit different
 // to ensure the connections do not get cached or terminated by a proxy prematurely.
 func (g *Gateway) handleLegacyProtocol(w http.ResponseWriter, r *http.Request, t *Tunnel) {
+	if t.RDGId == "" {
+		// the two channels of a legacy tunnel find each other by the connection id: requests
+		// that carry none must not end up in one tunnel
+		log.Printf("legacy %s request without %s", r.Method, rdgConnectionIdKey)
+		http.Error(w, rdgConnectionIdKey+" missing", http.StatusBadRequest)
+		return
+	}
 	t.attachMu.Lock()
 	hasIn := t.transportIn != nil
 	t.attachMu.Unlock()
